@@ -254,6 +254,19 @@ def check(chk):
             ok = ms is not None and src(ms) == "fade_ms" and cb is not None and "_remove_fade_out" in src(cb) and "key=key" in src(cb).replace(" ", "")
             chk.ob("UNIT-3", "the fade-out entry is removed after exactly fade_ms by a callback bound to its key", ok, g.where(c), construct=g.ident,
                    text="fadeout removal delay")
+            nm = kwarg(c, "name")
+            per_key = nm is not None and any(isinstance(y, ast.Name) and y.id == "key" for y in ast.walk(nm))
+            chk.ob("PAIR-24", "each key's fade-out has a clean-up timer of its own (the delay name varies with the key)", per_key, g.where(c),
+                   detail="name=%s: with one shared name the fade-out of a second key cancels the clean-up of the first, whose transparent entry then stays for ever"
+                   % (src(nm) if nm is not None else None), construct=g.ident, text="fadeout timer name " + (src(nm) if nm is not None else "missing"))
+        if call_attr(c) == "LightStackEntry" and len(c.args) >= 6 and src(c.args[5]) == "None":
+            sc = c.args[3]
+            defs = [a for a in walk_local(g.node) if isinstance(a, ast.Assign) and isinstance(sc, ast.Name) and src(a.targets[0]) == sc.id]
+            ok = len(defs) == 1 and isinstance(defs[0].value, ast.Subscript) and isinstance(defs[0].value.value, ast.Call) and \
+                call_attr(defs[0].value.value) == "_get_color_and_fade" and src(defs[0].value.value.args[0]) == "stack" and const_value(defs[0].value.slice) == 0
+            chk.ob("FADE-2", "a fade-out starts from the colour of the removed key's own layer (the stack from the key downwards), not from what is visible",
+                   ok, g.where(c), detail="start colour %s" % (src(defs[0].value) if defs else src(sc)),
+                   construct=g.ident, text="fadeout start colour " + (src(defs[0].value) if defs else src(sc)))
     chk.need(n_u >= 3, "UNIT-3", "fade end times are computed (start + fade_ms / 1000)", repo.func(LT, "Light._add_to_stack"), "found %d" % n_u)
     for rel, qn in ((LI, "LightPlatformDirectFade.set_fade"),):
         g = repo.func(rel, qn)
@@ -752,6 +765,9 @@ def battery():
         M("brightness list ignores the fade tolerance", BL, "            if -max_fade_tolerance < common_fade_ms - fade_ms < max_fade_tolerance and \\\n                    len(sequential_brightness_list) < self.max_batch_size:", "            if len(sequential_brightness_list) < self.max_batch_size:", "BATCH-4"),
         M("keys of some entries are not found when removing", LT, "            if entry.key == key:\n                stack = self.stack[i:]", "            if entry.key == key and entry.priority:\n                stack = self.stack[i:]", "DOM-19"),
         M("dirty flag cleared before the sleep", BL, "            await self.dirty_lights_changed.wait()\n            self.dirty_lights_changed.clear()", "            self.dirty_lights_changed.clear()\n            await self.dirty_lights_changed.wait()", "BATCH-2"),
+        M("all fade-outs of a light share one clean-up timer", LT, "name=\"remove_fade_{}\".format(key))", "name=\"remove_fade_out\")", "PAIR-24"),
+        M("fade-out starts from the visible colour", LT, "            color_of_key = self._get_color_and_fade(stack, 0)[0]", "            color_of_key = self.get_color()", "FADE-2"),
+        M("twin: fade-out timer named with an f-string", LT, "name=\"remove_fade_{}\".format(key))", "name=f\"remove_fade_{key}\")", None),
     ]
 
 
